@@ -64,6 +64,11 @@ package runner
 //@   ensures #log-prefix runN >= old(runN) && (forall i int :: i < old(runN) ==> runJob[i] == old(runJob[i]) && runErr[i] == old(runErr[i]))
 //@   ensures err == nil ==> ctxOK(c)
 //@   ensures #C14.up-before-anything err == nil ==> onceDone[c.onceUp] && c.startupError == nil
+// down runs at shutdown for every context that was used: a named context is registered for cleanup, unconditionally,
+// before anything of it runs
+//@   ensures #C14.used-context-registered-for-down (t.Context in r.contexts) && old(t.Context != "") ==> calls(Store) == 1
+//@   callsite Up
+//@     requires #C14.registered-before-up old(t.Context) != "" ==> calls(Store) == 1
 
 //@ func (*ExecutionContext).After
 //@   effect no lock-held at return
@@ -218,6 +223,7 @@ package runner
 
 //@ func (*TaskRunner).Run
 //@   ghostlocal gCaptured io.Writer
+//@   ghostlocal gCtxOK bool
 //@   requires runnerOK(r) && taskOK(t) && compiledClosed()
 //@   modifies *
 //@   effect no lock-held at execute
@@ -237,9 +243,11 @@ package runner
 //@   ensures #C07.execute-failure-reported calls(execute) == 1 && gExecErr != nil ==> result != nil
 //@   ensures #C06.skipped-ran-nothing-else calls(checkTaskCondition) == 1 && !gCondMet && gCondErr == nil ==> result == nil && t.Skipped && calls(before) == 0 && calls(CompileTask) == 0 && calls(execute) == 0 && calls(after) == 0
 //@   ensures #C14.context-after-once calls(NewTaskOutput) == 1 && gOutErr == nil ==> calls(After) == 1
+//@   ensures #C14.after-hook-armed-right-after-before-hook gCtxOK ==> calls(NewTaskOutput) == 1 // once the context's before hook has run, nothing can return before the output is created and the deferred after hook is armed
 //@   ensures #C14.context-after-at-most-once calls(After) <= 1 && calls(contextForTask) <= 1
 //@   callsite contextForTask
 //@     requires #C14.context-resolved-once calls(contextForTask) == 0
+//@     ghost gCtxOK = result#1 == nil
 //@   callsite NewTaskOutput
 //@     ghost gOutErr = result#1
 //@   callsite After
